@@ -187,6 +187,11 @@ class BoxLoc:
         return 'box:%s' % self.bid
 
 
+class LoopFrame:
+    def __init__(self, mods, pre_boxes, havoced):
+        self.mods, self.pre_boxes, self.havoced = set(mods), set(pre_boxes), set(havoced)
+
+
 class Path:
     def __init__(self, prefix):
         self.prefix, self.taken, self.alts = list(prefix), [], []
@@ -238,6 +243,10 @@ class SpecCtx:
     def loc0(self, name):
         return self.loc(name, self.entry)
 
+    def outer_done(self, idx):
+        """the `done` ghost of an enclosing loop (by loop ordinal)"""
+        return self.ex.loop_done[idx]
+
 
 def _read_loc_view(view, loc):
     if isinstance(loc, FieldLoc):
@@ -271,8 +280,14 @@ class Exec:
         order.sort(key=lambda n: (n.lineno, n.col_offset))
         self.loops = {id(n): i for i, n in enumerate(order)}
         declared = getattr(self.k, 'loops', {}) or {}
+        self.loop_keys = {}
+        for n in order:
+            head = _loop_head(n)
+            for key in declared:
+                if isinstance(key, str) and head.startswith(key):
+                    self.loop_keys[id(n)] = key
         for i in declared:
-            if i >= len(order):
+            if isinstance(i, int) and i >= len(order):
                 raise Unsupported('contract names loop %d but %s has %d loops' % (i, self.qual, len(order)))
 
     # ---- naming / fresh
@@ -390,6 +405,8 @@ class Exec:
             else:
                 self.assume(q)
         self.try_stack = []
+        self.loop_frames = []
+        self.loop_done = {}
         self.guards = []
         try:
             self.exec_block(self.fn.body)
@@ -477,11 +494,14 @@ class Exec:
             self._note_write(loc.name, line)
             self.st.glob[loc.name] = t
         else:
+            for fr in getattr(self, 'loop_frames', []):
+                if loc.bid in fr.pre_boxes and loc.bid not in fr.havoced:
+                    raise Unsupported('local container %s mutated in a loop through an alias the frame analysis missed' % loc.bid)
             self.st.box[loc.bid] = t
 
     def _note_write(self, what, line):
         for lm in getattr(self, 'loop_frames', []):
-            if what not in lm:
+            if what not in lm.mods:
                 self.vc('frame.loop.%s@%d' % (what, line), z3.BoolVal(False), line,
                         note='write to %s inside a loop whose contract does not list it' % what)
 
@@ -784,6 +804,9 @@ class Exec:
             if gk is not None and tgt.id not in self.st.env and self._declared_global(tgt.id):
                 self.set_global(gk, v, line)
             else:
+                lt = self.world.local_type(self, tgt.id, v)
+                if lt is not None and not isinstance(v, (V, C)) and self.depth == 0:
+                    v = self.wrap(self.to_z3(v, lt), lt)
                 self.st.env[tgt.id] = v
         elif isinstance(tgt, (ast.Tuple, ast.List)):
             parts = self.unpack(v, len(tgt.elts), line)
@@ -1552,7 +1575,10 @@ class Exec:
 
     def loop_spec(self, s):
         idx = self.loops[id(s)]
-        spec = (getattr(self.k, 'loops', {}) or {}).get(idx)
+        declared = getattr(self.k, 'loops', {}) or {}
+        key = self.loop_keys.get(id(s))
+        spec = declared.get(key) if key is not None else declared.get(idx)
+        self._cur_loop_key = key if key is not None else idx
         return idx, spec or Loop()
 
     def _assigned_names(self, s):
@@ -1573,8 +1599,10 @@ class Exec:
                 pass
             else:
                 raise SpecError('loop modifies unknown location %s' % f)
-        for bid in list(st.box):
+        mutated = self._mutated_boxes(s)
+        for bid in mutated:
             st.box[bid] = z3.Const(self.path.fresh_name('hv_' + str(bid)), st.box[bid].sort())
+        self._last_havoced = set(mutated)
         for nm in self._assigned_names(s):
             if nm in st.env:
                 v = st.env[nm]
@@ -1594,6 +1622,45 @@ class Exec:
                 if ty is not None and nm not in self._target_names(s):
                     st.env[nm] = UNBOUND if getattr(ty, 'maybe_unbound', False) else st.env.get(nm, UNBOUND)
 
+    MUTATORS = {'add', 'append', 'remove', 'discard', 'clear', 'update', 'extend', 'pop', 'sort', 'insert', 'difference_update',
+                'intersection_update', 'setdefault', 'popitem', 'reverse', '__setitem__', '__delitem__'}
+
+    def _mutated_boxes(self, s):
+        """ids of the local containers the loop body may mutate: receivers of mutating method calls, bases of
+        subscript stores, augmented-assignment targets and anything passed to a call, closed under name-to-name
+        assignment inside the body; resolved through the environment at loop entry"""
+        names = set()
+        alias = []
+        for n in ast.walk(s):
+            if isinstance(n, ast.Call):
+                if isinstance(n.func, ast.Attribute) and isinstance(n.func.value, ast.Name) and n.func.attr in self.MUTATORS:
+                    names.add(n.func.value.id)
+                for a in list(n.args) + [k.value for k in n.keywords]:
+                    for m in ast.walk(a):
+                        if isinstance(m, ast.Name):
+                            names.add(m.id)
+            elif isinstance(n, (ast.Subscript,)) and isinstance(n.ctx, (ast.Store, ast.Del)) and isinstance(n.value, ast.Name):
+                names.add(n.value.id)
+            elif isinstance(n, ast.AugAssign) and isinstance(n.target, ast.Name):
+                names.add(n.target.id)
+            elif isinstance(n, ast.Assign) and isinstance(n.value, ast.Name):
+                for t in n.targets:
+                    if isinstance(t, ast.Name):
+                        alias.append((t.id, n.value.id))
+        changed = True
+        while changed:
+            changed = False
+            for a, b in alias:
+                if (a in names) != (b in names):
+                    names.update((a, b))
+                    changed = True
+        out = []
+        for nm in names:
+            v = self.st.env.get(nm)
+            if isinstance(v, C) and isinstance(v.loc, BoxLoc) and v.loc.bid in self.st.box:
+                out.append(v.loc.bid)
+        return out
+
     def _target_names(self, s):
         if isinstance(s, ast.For):
             return {n.id for n in ast.walk(s.target) if isinstance(n, ast.Name)}
@@ -1612,13 +1679,18 @@ class Exec:
 
         def inv_at(view, done, mode, x=None):
             c = SpecCtx(self, self.args, self.old, view, mode=mode, entry=entry, done=done, it=it_term, x=x)
-            c.sks = self.prove_ctx.sks
-            return self._clauses(spec.inv, c)
+            if mode == 'prove':
+                c.sks = self.prove_ctx.sks
+                return self._clauses(spec.inv, c)
+            for f in self._clauses(spec.inv, c).values():
+                self._assume_clause(f, c, 'inv%d' % idx)
+            return {}
         # init
         for nm, f in inv_at(self.st.snap(), done0, 'prove').items():
             self.vc('inv.%d.init.%s' % (idx, nm), f, line)
         branch = self.choose(2)
         frames = getattr(self, 'loop_frames', [])
+        pre_boxes = set(self.st.box)
         if branch == 0:
             # an arbitrary iteration
             self._havoc(s, spec, entry)
@@ -1636,7 +1708,9 @@ class Exec:
             for f in inv_at(self.st.snap(), done, 'assume', x_t).values():
                 self.assume(f)
             x = self.wrap(x_t, elem_ty)
-            self.loop_frames = frames + [set(spec.modifies)]
+            self.loop_frames = frames + [LoopFrame(spec.modifies, pre_boxes, self._last_havoced)]
+            self.loop_done[idx] = done
+            self.loop_done[self.loop_keys.get(id(s), idx)] = done
             try:
                 skip = False
                 if filt is not None:
@@ -1678,12 +1752,17 @@ class Exec:
 
         def inv_at(view, mode):
             c = SpecCtx(self, self.args, self.old, view, mode=mode, entry=entry)
-            c.sks = self.prove_ctx.sks
-            return self._clauses(spec.inv, c)
+            if mode == 'prove':
+                c.sks = self.prove_ctx.sks
+                return self._clauses(spec.inv, c)
+            for f in self._clauses(spec.inv, c).values():
+                self._assume_clause(f, c, 'inv%d' % idx)
+            return {}
         for nm, f in inv_at(self.st.snap(), 'prove').items():
             self.vc('inv.%d.init.%s' % (idx, nm), f, line)
         branch = self.choose(2)
         frames = getattr(self, 'loop_frames', [])
+        pre_boxes = set(self.st.box)
         self._havoc(s, spec, entry)
         for f in inv_at(self.st.snap(), 'assume').values():
             self.assume(f)
@@ -1697,7 +1776,7 @@ class Exec:
                 self.assume(guard)
                 if not self._feasible():
                     raise _PathEnd()
-            self.loop_frames = frames + [set(spec.modifies)]
+            self.loop_frames = frames + [LoopFrame(spec.modifies, pre_boxes, self._last_havoced)]
             try:
                 try:
                     self.exec_block(s.body)
@@ -1780,7 +1859,7 @@ class Exec:
             raise Unsupported('inline depth')
         fn = kc.load_ast()
         saved = (self.fn, self.k, self.cls, self.loops, self.st.env, self.try_stack, getattr(self, '_locals', None),
-                 self.module_ast, getattr(self, 'loop_frames', []))
+                 self.module_ast, getattr(self, 'loop_frames', []), self.loop_keys)
         names = [a.arg for a in fn.args.posonlyargs + fn.args.args + fn.args.kwonlyargs]
         env = {}
         for nm, v in zip(names, argvals):
@@ -1800,7 +1879,7 @@ class Exec:
                 return r.v
         finally:
             self.depth -= 1
-            (self.fn, self.k, self.cls, self.loops, self.st.env, self.try_stack, loc, self.module_ast, self.loop_frames) = saved
+            (self.fn, self.k, self.cls, self.loops, self.st.env, self.try_stack, loc, self.module_ast, self.loop_frames, self.loop_keys) = saved
             if loc is None:
                 if hasattr(self, '_locals'):
                     del self._locals
@@ -1858,6 +1937,12 @@ class Exec:
                 self.st.qh.append(QHyp(used, f, label))
                 return
         self.assume(f)
+
+
+def _loop_head(n):
+    if isinstance(n, ast.For):
+        return 'for %s in %s' % (ast.unparse(n.target), ast.unparse(n.iter))
+    return 'while %s' % ast.unparse(n.test)
 
 
 def _has_jump(s):
